@@ -237,6 +237,7 @@ func (c13) Exec(h []Ev) []Ev {
 		keepBuf := append([]byte(nil), buf...)
 		d := buf[8 : 8+len(src)]
 		keep := append([]byte(nil), d...)
+		e["par_same"] = true
 		e["panic"] = guard(func() {
 			c := gots.ComputeCRC(d)
 			first := append([]byte(nil), c...)
@@ -246,6 +247,13 @@ func (c13) Exec(h []Ev) []Ev {
 			gots.ComputeCRC(buf[8 : 8+len(src)/2])
 			gots.ComputeCRC(d)
 			e["earlier_same"] = string(c) == string(first) && string(buf) == string(keepBuf)
+			// calls on separate strings that overlap in time (eight goroutines, each with its own rotation of the string)
+			if GI0(e["ord"])%7 == 1 && len(src) >= 4 && len(src) <= 2048 {
+				e["par_same"] = parSame(8, 150, func(k int) string {
+					own := append(append([]byte(nil), src[k%len(src):]...), src[:k%len(src)]...)
+					return string(gots.ComputeCRC(own))
+				})
+			}
 		})
 	}
 	return h
